@@ -113,6 +113,7 @@ M = [
  ('R2A-S1-dvec2-distance-squared-expanded', 'src/f64/dvec2.rs', r'485s/(self - rhs).length_squared()/self.length_squared() + rhs.length_squared() - 2.0 * self.dot(rhs)/', ['C02']),
 
  # round 3 (reviewers rt3a / rt3b / rt3c)
+ ('R3C-EV7-debug-glam-assert-inverted', 'src/macros.rs', r's/all(debug_assertions, feature = "debug-glam-assert")/all(not(debug_assertions), feature = "debug-glam-assert")/', ['C20']),
  ('R3C-EV1-arc-assert-wrong-operand', 'src/f32/sse2/quat.rs', r'320s/to.is_normalized()/from.is_normalized()/', ['C20']),
  ('R3C-EV2-project-onto-normalized-asserts-self', '@sh', r"for f in $(grep -rl 'glam_assert!(rhs.is_normalized());' src); do sed -i 's/glam_assert!(rhs.is_normalized());/glam_assert!(self.is_normalized());/' $f; done", ['C20']),
  ('R3C-EV3-look-to-up-assert-dropped', 'src/f32/sse2/mat4.rs', r'830d', ['C20']),
